@@ -8,13 +8,25 @@ CRATE = "c04"
 COQ_DIR = "C04"
 COQ_DEPS = []
 PROFILES = ["debug"]          # the crate's own dev profile: opt-level 2 with debug assertions and overflow checks on
-CORR_IMPORT = "From RlibV Require Import C04.Model C04.Corr.\nOpen Scope Z_scope."
+CORR_IMPORT = "From Coq Require Import Uint63.\nFrom RlibV Require Import C04.Model C04.Corr.\nOpen Scope Z_scope."
 AUDIT_IMPORT = ("From Coq Require Import ZArith List.\nImport ListNotations.\n"
                 "From RlibV Require Import C04.Model C04.Corr C04.Properties.\n")
 EXPLAIN = "explain"
 AXIOM_ALLOW = []
-SHARD = 400
-THEOREMS = []
+SHARD = 110
+THEOREMS = [
+    ("c04_shape",
+     "forall (F : Type) (ops : Ops F) (tw : nat -> nat -> F * F) (s : st (F := F)) (a b : list Z), "
+     "(a = [] \\/ b = [] -> multiply ops tw s a b = (s, [])) /\\ "
+     "(a <> [] -> b <> [] -> length (snd (multiply ops tw s a b)) = (length a + length b - 1)%nat) /\\ "
+     "(forall res, snd (multiply_into ops tw s a b res) = zip_acc Z.add res (snd (multiply ops tw s a b)) /\\ "
+     "fst (multiply_into ops tw s a b res) = fst (multiply ops tw s a b)) /\\ "
+     "(forall v n, exists X, length X = fft_size (length v) n /\\ "
+     "snd (fft ops tw s v n) = zip_acc (cadd ops) (repeat (czero ops) (fft_size (length v) n)) X /\\ "
+     "forall dest, snd (fft_into ops tw s v n dest) = zip_acc (cadd ops) dest X) /\\ "
+     "(forall (v : list (F * F)) k dest, length v = (2 ^ k)%nat -> "
+     "snd (fft_inv_into ops tw s v dest) = zip_acc Z.add dest (snd (fft_inv ops tw s v)))"),
+]
 RULE = ("histories of 1-7 calls on FFT<f64> objects: multiply / multiply_into (non-zero destinations, shorter and longer "
         "than the product) / fft / fft_into / fft+product+fft_inv_into, length pairs from {0,1,2,3,4,5,7,8,9,15,16,17,31,32,33,40} "
         "(all pairs with small coefficients, sampled pairs with coefficients of magnitude sqrt(1e12/max(len)) and mixed signs), "
@@ -32,12 +44,27 @@ LENS = [0, 1, 2, 3, 4, 5, 7, 8, 9, 15, 16, 17, 31, 32, 33, 40]
 
 
 # ----------------------------------------------------------------------------- cases
+def zlit(x):
+    """Z literal; large magnitudes through primitive 63-bit integers (see Corr.v zp/zn/zh)"""
+    if 0 <= x < 10000:
+        return "%d" % x
+    if -10000 < x < 0:
+        return "(%d)" % x
+    if x < 0:
+        return "(zn %d)" % -x if -x < (1 << 63) else "(%d)" % x
+    if x >= 1 << 64:
+        return "%d" % x
+    if x >= 1 << 63:
+        return "(zh %d)" % (x - (1 << 63))
+    return "(zp %d)" % x
+
+
 def zl(v):
-    return "[" + ";".join("(%d)" % x if x < 0 else "%d" % x for x in v) + "]"
+    return "[" + ";".join(zlit(x) for x in v) + "]"
 
 
 def zpl(v):
-    return "[" + ";".join("(%d,%d)" % (v[i], v[i + 1]) for i in range(0, len(v), 2)) + "]"
+    return "[" + ";".join("(%s,%s)" % (zlit(v[i]), zlit(v[i + 1])) for i in range(0, len(v), 2)) + "]"
 
 
 def tok_list(v):
@@ -111,10 +138,12 @@ def nontrivial(c, obs):
 
 
 def classify(c, obs):
-    kinds = "".join(sorted({o[0] for o in c["ops"]}))
+    ks = {o[0] for o in c["ops"]}
+    kind = "inv" if "V" in ks else ("into" if ks & {"MI", "TI"} else ("fft" if "T" in ks else "mul"))
     size = max([len(a) + len(b) for a, b in products(c)] + [0])
     cls = "n<=8" if size <= 9 else ("n<=32" if size <= 33 else "n<=128")
-    return "%s/%s%s" % (kinds, cls, "/panic" if "P" in fields(obs)[:-1] or obs == "P" else "")
+    return "%s/%s%s%s" % (kind, cls, "/reuse" if len(list(products(c))) > 1 else "",
+                          "/panic" if "P" in fields(obs)[:-1] or obs == "P" else "")
 
 
 def in_known_class(a, b):
